@@ -58,7 +58,8 @@ def _case(draw):
         elif o == 'lose':
             if draw(st.integers(0, 2)) == 0:
                 # the connection may be lost in the middle of a reply; afterwards the application may reconnect (a NEW protocol object)
-                ops.append(['lose', draw(st.sampled_from([None, None, 'mid-reply'])), draw(st.integers(0, 9)), draw(st.integers(1, 12))])
+                # ... or the application calls close() itself first, and the transport then reports the loss
+                ops.append(['lose', draw(st.sampled_from([None, None, 'mid-reply', 'app-close', 'twice'])), draw(st.integers(0, 9)), draw(st.integers(1, 12))])
                 if draw(st.booleans()):
                     ops.append(['reconnect'])
         else:
@@ -326,7 +327,12 @@ def run_case(case):
                         x = pend[0] if framing == 'rtu' else pend[op[2] % len(pend)]
                         feed(x['frame'][:max(1, min(len(x['frame']) - 1, op[3]))], 'first part of a reply, then the connection is lost')
                         labels.append('loss-mid-reply')
+                if len(op) > 1 and op[1] == 'app-close' and variant != 'udp':
+                    labels.append('closed-by-the-application-first')
+                    proto.close()
                 proto.connectionLost(None)
+                if len(op) > 1 and op[1] == 'twice':
+                    proto.connectionLost(None)           # a second notification changes nothing
                 for x in pend:
                     x['lost'] = True
                     if not (len(x['failed']) == 1 and x['failed'][0].check(ConnectionException) and not x['fired']):
